@@ -20,7 +20,12 @@ def run_script(case):
             elif step[0] == "raw":
                 r = e.cmd(step[1])
                 # the answer of a planner probe is part of the observations, other controls are not
-                out.append({"rlte": r.get("plan"), "status": None, "rows": None} if step[1].startswith("!rlte ") else None)
+                if step[1].startswith("!rlte "):
+                    out.append({"rlte": r.get("plan"), "status": None, "rows": None})
+                elif step[1].startswith("!blast "):
+                    out.append({"blast": r, "status": None, "rows": None})
+                else:
+                    out.append(None)
             elif step[0] == "quiesce":
                 e.cmd("!flushwait"); e.cmd("!wal_drained 3000"); out.append(None)
             elif step[0] == "restart":
